@@ -394,3 +394,17 @@ def close(a, b, tol=1e-9):
         return abs(a - b) <= tol * max(1.0, abs(a), abs(b))
     except Exception:
         return False
+
+
+def extra_props(run, pid, props, names):
+    """further theorem files that belong to property pid (e.g. Props/C04esis.v): rebuilt and re-checked on every
+    run; their theorems join the obligations of pid; a file that no longer checks is a violation without failing input"""
+    for name in names:
+        xp = check_props(name)
+        props['theorems'] = list(props['theorems']) + list(xp['theorems'])
+        props['axioms'] = dict(props['axioms'], **xp['axioms'])
+        if not xp['ok']:
+            props['ok'] = False
+            props['log'] = (props.get('log') or '') + ' | ' + xp['log'][-400:]
+            run.violation('%s/proof/%s' % (pid, name), 'Props/%s.v no longer checks: %s' % (name, xp['log'][-400:]),
+                          {'broken': 'coq/Props/%s.v' % name, 'log': xp['log']}, no_input=True)
